@@ -13,7 +13,7 @@
 (***************************************************************************)
 EXTENDS Integers, Sequences, FiniteSets, TLC, Json
 
-CONSTANTS Cls, MsgKinds, Outs, DelayCls, Vals, Depth, Variant, MaxObjs, Parents, Fmts, SecondReport
+CONSTANTS Cls, MsgKinds, Outs, DelayCls, Vals, Depth, Variant, MaxObjs, Parents, Fmts, SecondReport, BadOverrides
 \* Cls subset of {"P","C","N","T"}: P = instructor subclass of Feedback, C = subclass of P, T = a tool feedback
 Attrs == {"template", "title"}
 \* N = another subclass of P whose own class body sets title = None, masking P's title
@@ -122,13 +122,16 @@ HandleDelayed(i) ==
 \* MRO, so a class whose ancestor already owns a table shares that table.
 TableOf(c) == IF table[c] # "none" THEN table[c]
               ELSE IF Parent(c) \in Cls /\ table[Parent(c)] # "none" THEN table[Parent(c)] ELSE c
-OverrideVia(rep, c, a, v) ==
+\* bad = TRUE: the call names one more, unknown, field after this one (override(title=..., bogus=1)): the known field is
+\* set, then the call raises AttributeError - and what it changed must still be undone by the next clear.  Variant
+\* register_after_fields tells the report about the class only after ALL fields went through.
+OverrideVia(rep, c, a, v, bad) ==
     /\ CanAct /\ v # Eff(attr, c, a) /\ v # "inherit"
     /\ LET t == IF Variant = "shared_table" THEN TableOf(c) ELSE c   \* "shared_table" = code before the fix
            firstTime == backup[t][a] = "none"
            \* the report is told about the class on every override; Variant register_first_backup_only tells it only
            \* when this call took a first-time backup ("something new to undo")
-           registers == Variant # "register_first_backup_only" \/ firstTime
+           registers == (Variant # "register_first_backup_only" \/ firstTime) /\ ~(bad /\ Variant = "register_after_fields")
        IN /\ table' = [table EXCEPT ![c] = t]
           /\ backup' = IF firstTime \/ Variant = "backup_always"
                        \* what is saved: the class' OWN state (possibly "the class does not define it"); Variant
@@ -139,11 +142,12 @@ OverrideVia(rep, c, a, v) ==
           /\ attr' = [attr EXCEPT ![c][a] = v]
           /\ IF rep = 1 THEN overridden' = (IF registers THEN overridden \cup {c} ELSE overridden) /\ UNCHANGED overridden2
              ELSE overridden2' = (IF registers THEN overridden2 \cup {c} ELSE overridden2) /\ UNCHANGED overridden
-    /\ raised' = FALSE /\ via' = [via EXCEPT ![rep] = @ \cup {c}]
+    /\ raised' = bad /\ via' = [via EXCEPT ![rep] = @ \cup {c}]
     /\ UNCHANGED <<objs, active, ignored, fmt, lastCleared>>
-    /\ Step([op |-> IF rep = 1 THEN "override" ELSE "override2", cls |-> c, mk |-> "-", out |-> "-", delay |-> FALSE, v |-> v, attr |-> a, i |-> 0, par |-> "-"])
-Override(c, a, v) == OverrideVia(1, c, a, v)
-Override2(c, a, v) == SecondReport /\ OverrideVia(2, c, a, v)
+    /\ Step([op |-> IF bad THEN "override_bad" ELSE IF rep = 1 THEN "override" ELSE "override2", cls |-> c, mk |-> "-", out |-> "-", delay |-> FALSE, v |-> v, attr |-> a, i |-> 0, par |-> "-"])
+Override(c, a, v) == OverrideVia(1, c, a, v, FALSE)
+OverrideBad(c, a, v) == BadOverrides /\ OverrideVia(1, c, a, v, TRUE)
+Override2(c, a, v) == SecondReport /\ OverrideVia(2, c, a, v, FALSE)
 
 \* clear_overridden_feedback: for each overridden class (set iteration order is not specified; the model
 \* restores P before C, T independent), setattr from its table, then clear that table.
@@ -194,6 +198,7 @@ Next == \/ \E c \in Cls, mk \in MsgKinds, out \in Outs, d \in BOOLEAN, par \in P
         \/ \E i \in 1..MaxObjs : HandleDelayed(i)
         \/ \E c \in Cls, a \in Attrs : \E v \in Vals \cup {Pristine[c][a]} : Override(c, a, v)
         \/ \E c \in Cls, a \in Attrs : \E v \in Vals \cup {Pristine[c][a]} : Override2(c, a, v)
+        \/ \E c \in Cls, a \in Attrs : \E v \in Vals \cup {Pristine[c][a]} : OverrideBad(c, a, v)
         \/ Clear \/ Clear2 \/ Contextualize(TRUE) \/ Contextualize(FALSE)
         \/ \E f \in Fmts : SetFormatter(f)
 Spec == Init /\ [][Next]_vars
